@@ -382,16 +382,19 @@ class ReplaceLoopStmt(object):
     early = True
     count = 1
 
-    def __init__(self, anchor, repl, why=''):
+    def __init__(self, anchor, repl, why='', nth=None):
         self.pat = anchor
         self.repl = repl
         self.why = why
+        self.nth = nth
 
     def apply(self, text, log, generic=False):
         ms = list(_re.finditer(self.pat, text))
-        if len(ms) != 1:
+        if self.nth is None and len(ms) != 1:
             raise _ExtractError('ReplaceLoopStmt: %r matches %d times, expected 1' % (self.pat, len(ms)))
-        kw = ms[0].start()
+        if self.nth is not None and self.nth >= len(ms):
+            raise _ExtractError('ReplaceLoopStmt: %r matches only %d times' % (self.pat, len(ms)))
+        kw = ms[self.nth or 0].start()
         p = text.index('(', kw)
         e = _match_close(text, p)
         j = e + 1
@@ -403,6 +406,32 @@ class ReplaceLoopStmt(object):
         log.append({'rule': 'R-stmt ' + self.pat, 'repl': self.repl, 'fired': 1, 'why': self.why,
                     'lines_replaced': text[kw:b + 1].count('\n') + 1})
         return text[:kw] + self.repl + text[b + 1:]
+
+
+# measured: minisat does not finish either unit in 600 s (one invariant-step obligation of the bi-orthogonalisation loop alone > 300 s), kissat needs 66 s / 132 s
+KISSAT = ['--external-sat-solver', 'kissat']
+class ReplaceRegion(object):
+    """early rule: the text from the first match of `start` up to (excluding) the first later match of `end` is replaced by `repl`."""
+    early = True
+    count = 1
+
+    def __init__(self, start, end, repl, why=''):
+        self.pat = start + ' ... ' + end
+        self.start = start
+        self.end = end
+        self.repl = repl
+        self.why = why
+
+    def apply(self, text, log, generic=False):
+        m = _re.search(self.start, text)
+        if not m:
+            raise _ExtractError('ReplaceRegion: start %r not found' % self.start)
+        m2 = _re.compile(self.end).search(text, m.end())
+        if not m2:
+            raise _ExtractError('ReplaceRegion: end %r not found' % self.end)
+        log.append({'rule': 'R-region ' + self.pat, 'repl': self.repl, 'fired': 1, 'why': self.why,
+                    'lines_replaced': text[m.start():m2.start()].count('\n') + 1})
+        return text[:m.start()] + self.repl + '\n' + ' ' * 16 + text[m2.start():]
 
 
 SIG4I = r'std::tuple<size_t, scalar_type> operator\(\)\(\s*Matrix  const &A,\s*Precond const &Prec,\s*Vec1    const &rhs,\s*Vec2          &x\s*\) const\s*(?=\{)'
@@ -441,8 +470,13 @@ struct idrs_g0 { unsigned long xv0, rv0, xsv0, rsv0, wP; };
 #define VEC_KEEP (VEC_KEEP0 && self->r->defined && (self->prm.smoothing ==> (self->x_s->defined && self->r_s->defined)))
 /* state after n update steps: the carried residual r and x have advanced in lockstep (r: one write per step plus the residual() calls; x: one write per
  * step); with smoothing so have r_s and x_s (after their initial copy); the last norm evaluated (RN) is that of the (smoothed) residual in its current state */
-#define PAIR(n, RN) (gs.res.calls >= 1 && (self->prm.replacement || (gs.res.calls == 1 && gs.res.xver == g0.xv0)) \
-                 && gs.res.idf == 1 && gs.res.idx == 2 && gs.res.idr == 3 && gs.res.idA == A_p->id \
+/* the last axpby into a single vector after n > 0 steps: without smoothing the update of x, x = a * U[k] + 1 * x (G-space loop) or x = om * v + 1 * x (dimension
+ * reduction step); with smoothing the update of the smoothed residual, r_s = -gamma * t + 1 * r_s */
+#define XUPD(n, ONE) ((n) > 0 ==> (gs.ax.vb == (ONE) && (self->prm.smoothing ? (gs.ax.vidy == 7 && gs.ax.vidx == 5) \
+                                                              : (gs.ax.vidy == 2 && (gs.ax.vidx == BAS_ID(B_U) || gs.ax.vidx == 4)))))
+#define RES_KEEP (gs.res.calls >= 1 && (self->prm.replacement || (gs.res.calls == 1 && gs.res.xver == g0.xv0)) \
+                  && gs.res.idf == 1 && gs.res.idx == 2 && gs.res.idr == 3 && gs.res.idA == A_p->id)
+#define PAIR(n, RN, ONE) (RES_KEEP && gs.res.calls <= (n) + 1 && XUPD(n, ONE) \
                  && x_p->version == g0.xv0 + (n) && self->r->version == g0.rv0 + (n) + gs.res.calls \
                  && (self->prm.smoothing ==> (self->r_s->version == g0.rsv0 + 1 + (n) && self->x_s->version == g0.xsv0 + 1 + (n))) \
                  && gs.norm.id0 == 1 && gs.norm.calls == 2 && (RN) == gs.norm.val \
@@ -455,13 +489,13 @@ typedef struct kret { size_t iter; V res_norm; } kret;
 #define KRET __CPROVER_return_value
 #define KLOOP_CONTRACT \
 __CPROVER_requires(UF_AXIOMS && ALLOC_IDRS && g_thrown == 0 && iter_in < self->prm.maxiter) \
-__CPROVER_requires(VEC_KEEP && BAS_KEEP && SC_KEEP && gs.sc.hi[SC_f] >= self->prm.s && PAIR(iter_in, res_norm_in)) \
+__CPROVER_requires(VEC_KEEP && BAS_KEEP && SC_KEEP && gs.sc.hi[SC_f] >= self->prm.s && PAIR(iter_in, res_norm_in, MATH_identity(V))) \
 __CPROVER_assigns(*x_p, g_thrown, *self->r, *self->v, *self->t, *self->x_s, *self->r_s, gs) \
-__CPROVER_ensures(VEC_KEEP0 && BAS_KEEP) \
+__CPROVER_ensures(VEC_KEEP0 && BAS_KEEP && RES_KEEP) \
 __CPROVER_ensures(g_thrown ==> self->prm.s > 0) \
 __CPROVER_ensures(!g_thrown ==> (KRET.iter <= self->prm.maxiter && VEC_KEEP && SC_KEEP)) \
 /* one x / r update per pass, each counted -- but the pass that meets the tolerance is not counted */ \
-__CPROVER_ensures(!g_thrown ==> (PAIR(KRET.iter, KRET.res_norm) || (PAIR(KRET.iter + 1, KRET.res_norm) && UF_LE(KRET.res_norm, eps) && KRET.iter < self->prm.maxiter)))
+__CPROVER_ensures(!g_thrown ==> (PAIR(KRET.iter, KRET.res_norm, MATH_identity(V)) || (PAIR(KRET.iter + 1, KRET.res_norm, MATH_identity(V)) && UF_LE(KRET.res_norm, eps) && KRET.iter < self->prm.maxiter)))
 """
 
 IDRS_T = IDRS_COMMON + r"""
@@ -512,7 +546,8 @@ __CPROVER_ensures((!EARLY(self) && !self->prm.replacement) ==> gs.res.xver == OL
                  && x_p->version == OLD(x_p->version) + (n) + ((SM(self) && !CONV(self)) ? 1 : 0) \
                  && ((SM(self) && !CONV(self)) ==> (self->x_s->version == OLD(self->x_s->version) + 1 + (n) && self->r_s->version == OLD(self->r_s->version) + 1 + (n) \
                                                      && gs.copy.idx == self->x_s->id && gs.copy.idy == x_p->id && gs.copy.yver == x_p->version)) \
-                 && ((SM(self) && (n) > 0) ? (gs.norm.id == self->r_s->id && gs.norm.ver == self->r_s->version) : (gs.norm.id == self->r->id && gs.norm.ver == self->r->version)))
+                 && ((SM(self) && (n) > 0) ? (gs.norm.id == self->r_s->id && gs.norm.ver == self->r_s->version) : (gs.norm.id == self->r->id && gs.norm.ver == self->r->version)) \
+                 && XUPD(n, MATH_identity(V)))
 __CPROVER_ensures((!EARLY(self) && !g_thrown) ==> (DONE(RET.iters) || (DONE(RET.iters + 1) && UF_LE(gs.norm.val, EPSV(self)) && RET.iters < self->prm.maxiter)))
 /* C01: stopping before the budget is exhausted means the reported residual passed the test (res_norm <= eps, or the negation of res_norm > eps) */
 __CPROVER_ensures((!EARLY(self) && !g_thrown && RET.iters < self->prm.maxiter) ==> (UF_LE(gs.norm.val, EPSV(self)) || !UF_LESS(EPSV(self), gs.norm.val)))
@@ -557,7 +592,7 @@ __CPROVER_decreases(prm.s - j)
 """
 ID_MAIN = r"""
 __CPROVER_assigns(iter, res_norm, om, g_thrown, *x_p, *self->r, *self->v, *self->t, *self->x_s, *self->r_s, gs)
-__CPROVER_loop_invariant(iter <= prm.maxiter && g_thrown == 0 && VEC_KEEP && BAS_KEEP && SC_KEEP && PAIR(iter, res_norm))
+__CPROVER_loop_invariant(iter <= prm.maxiter && g_thrown == 0 && VEC_KEEP && BAS_KEEP && SC_KEEP && PAIR(iter, res_norm, one))
 """
 ID_F = r"""
 __CPROVER_assigns(i, gs.sc)
@@ -566,7 +601,7 @@ __CPROVER_decreases(prm.s - i)
 """
 ID_K = r"""
 __CPROVER_assigns(k, iter, res_norm, g_thrown, *x_p, *self->r, *self->v, *self->t, *self->x_s, *self->r_s, gs)
-__CPROVER_loop_invariant(k <= prm.s && iter < prm.maxiter && g_thrown == 0 && VEC_KEEP && BAS_KEEP && SC_KEEP && PAIR(iter, res_norm))
+__CPROVER_loop_invariant(k <= prm.s && iter < prm.maxiter && g_thrown == 0 && VEC_KEEP && BAS_KEEP && SC_KEEP && PAIR(iter, res_norm, one))
 __CPROVER_loop_invariant(gs.sc.hi[SC_f] >= prm.s && gs.sc.hi[SC_c] >= k)
 __CPROVER_decreases(prm.s - k)
 """
@@ -652,7 +687,7 @@ idrs = Unit(
                              Loop(r'for\(unsigned i = 0;', ID_F, nth=1, prefix=True)]),
           'omega': Cut('amgcl/solver/idrs.hpp', r'coef_type omega\(const Vector1 &t, const Vector2 &s\) const\s*(?=\{)',
                        rules=[COMPOUND, Cmp(ID_ATOM, '+')], uf=[UF_DECL, UF_ASSIGN_LV3])},
-    template=IDRS_T, enforce='f_idrs', replace=ORCH_H + ['f_kloop'], mode='inductive', obj_bits=12, replay='solvers', timeout=600,
+    template=IDRS_T, enforce='f_idrs', replace=ORCH_H + ['f_kloop'], mode='inductive', obj_bits=12, replay='solvers', timeout=600, solver=KISSAT,
     cover=False,
     variants=[{}, {'VARIANT_CONVERGED_GUESS': 1, 'CXC_NOCOVER': 1}],
     assumptions=ID_ASSUME, not_decided=ID_NOT_DECIDED,
@@ -679,7 +714,7 @@ KLOOP_CONTRACT
 /*@CUT:consts@*/
 /*@CUT:khead@*/
 __CPROVER_assigns(k, iter, res_norm, g_thrown, *x_p, *self->r, *self->v, *self->t, *self->x_s, *self->r_s, gs)
-__CPROVER_loop_invariant(k <= prm.s && iter < prm.maxiter && g_thrown == 0 && VEC_KEEP && BAS_KEEP && SC_KEEP && PAIR(iter, res_norm))
+__CPROVER_loop_invariant(k <= prm.s && iter < prm.maxiter && g_thrown == 0 && VEC_KEEP && BAS_KEEP && SC_KEEP && PAIR(iter, res_norm, one))
 __CPROVER_loop_invariant(gs.sc.hi[SC_f] >= prm.s && gs.sc.hi[SC_c] >= k)
 __CPROVER_decreases(prm.s - k)
   {
@@ -709,9 +744,456 @@ idrs_k = Unit(
                               Loop(r'for\(unsigned i = 0;', ID_BI, prefix=True),
                               Loop(r'for\(unsigned i = k;', ID_MK, nth=1, prefix=True),
                               Loop(r'for\(unsigned i = k\s*\+\s*1;', ID_FU, nth=1, prefix=True)])},
-    template=IDRS_K_T, enforce='f_kloop', replace=ORCH_H, mode='inductive', obj_bits=12, timeout=600,
+    template=IDRS_K_T, enforce='f_kloop', replace=ORCH_H, mode='inductive', obj_bits=12, timeout=600, solver=KISSAT,
     cover=False, loop_contracts=True,
     assumptions=ID_ASSUME, not_decided=ID_NOT_DECIDED,
 )
 
-UNITS = [fgmres, lgmres, idrs, idrs_k]
+# ---------------------------------------------------------------------------- BiCGStab(L)
+# Three units over one body (same reason and same technique as IDR(s)): solver_bicgstabl (operator() with the BiCG loop over j and the polynomial part used
+# through their contracts), solver_bicgstabl_bicg (ENFORCES the contract of  for(int j = 0; j < L; ++j) {...}), solver_bicgstabl_poly (ENFORCES the contract of
+# the polynomial part: MZa, MZb, Y0, YL, the QR solves, omega).
+_X.OPAQUE_CALLS.update(['y_rd', 'y_wr', 'mz_rd', 'mz_wr'])
+BL_COMMON = GM_HEAD + r"""
+typedef struct bl_params { int L; V delta; _Bool convex; side_type pside; size_t maxiter; V tol; V abstol; _Bool ns_search; _Bool verbose; } bl_params;
+/* constructor (bicgstabl.hpp:180-195): Rt, X, B, T single vectors; R, U have L+1 vectors each; MZa, MZb are (L+1) x (L+1); Y0, YL have L+1 entries; L > 0 is
+ * checked there (precondition(prm.L > 0)) */
+typedef struct bicgstabl { bl_params prm; size_t n; vec *Rt, *X, *B, *T; } bicgstabl;
+enum { B_R = 0, B_U = 1 };
+#define LEFT(self) ((self)->prm.pside == side_left)
+#define LL(self) ((size_t)(self)->prm.L)
+#define ALLOC_BL (self->prm.L >= 1 && self->prm.L <= (1 << 20) && gs_blen[B_R] == LL(self) + 1 && gs_blen[B_U] == LL(self) + 1 && gs_hdim[0] == LL(self) + 1 && gs_hdim[1] == LL(self) + 1 \
+                  && gs_sclen[SC_Y0] == LL(self) + 1 && gs_sclen[SC_YL] == LL(self) + 1 && self->prm.maxiter <= MAXITER_BOUND)
+#define DELTA_ON(self) UF_LESS(UF_CONST(0), (self)->prm.delta)
+/* Y0, YL: subscript within the L+1 entries; an entry is read only when the whole array has been written in this call (first entry, the entries
+ * 1 .. L-1 in one piece by QR::solve, last entry) */
+struct gy_state { _Bool first[2], mid[2], last[2]; } gy;
+#define Y_FULL(a) (gy.first[(a) - SC_Y0] && gy.last[(a) - SC_Y0] && (gy.mid[(a) - SC_Y0] || gs_sclen[a] <= 2))
+static inline size_t y_wr(int a, size_t i)
+{
+  __CPROVER_assert((a == SC_Y0 || a == SC_YL) && i < gs_sclen[a], "safety.idx. Y0 / YL subscript within the L+1 entries the constructor allocates (write)");
+  if (i == 0) gy.first[a - SC_Y0] = 1;
+  if (i + 1 == gs_sclen[a]) gy.last[a - SC_Y0] = 1;
+  return 0;
+}
+static inline size_t y_rd(int a, size_t i)
+{
+  __CPROVER_assert((a == SC_Y0 || a == SC_YL) && i < gs_sclen[a], "safety.idx. Y0 / YL subscript within the L+1 entries the constructor allocates (read)");
+  __CPROVER_assert(Y_FULL(a), "C15 Y0 / YL is completely written in this call before an entry is read");
+  gs.sc.cell = nondet_V();
+  return 0;
+}
+static inline void y_need(int a) { __CPROVER_assert((a == SC_Y0 || a == SC_YL) && Y_FULL(a), "C15 the coefficient array of lin_comb is completely written in this call"); }
+#undef LIN_COMB2
+#define LIN_COMB2(n, cid, coff, b, boff, beta, y) (y_need(cid), bh_lin_comb2(n, cid, coff, b, boff, beta, y))
+/* entry values of operator() (ghost constants for invariants) */
+struct bl_g0 { unsigned long xv0, Xv0; };
+#define BL_VEC_KEEP (x_p->id == 2 && !x_p->readonly && x_p->defined && WS_KEEP(self->Rt, 3) && self->Rt->defined && WS_KEEP(self->X, 4) && self->X->defined \
+                     && WS_KEEP(self->B, 5) && self->B->defined && WS_KEEP(self->T, 6))
+/* the carried residual started as residual(rhs, A, x, .) of the initial guess (left: preconditioned afterwards) */
+#define BL_RES (gs.res.calls == 1 && gs.res.idf == 1 && gs.res.idA == A_p->id && gs.res.idx == 2 && gs.res.xver == g0.xv0 && gs.res.idr == (LEFT(self) ? 6 : 5))
+/* the last norm evaluated (Z) is that of R[0], taken after the last write to the basis R */
+#define ZETA_R0(Z) ((Z) == gs.norm.val && gs.norm.id == BAS_ID(B_R) && gs.norm.ix == 0 && gs.norm.ver == gs.bas.writes[B_R])
+
+/* ---- contract of the statement  for(int j = 0; j < L; ++j) { ... }  (the BiCG part; ENFORCED by unit solver_bicgstabl_bicg) ----
+ * in: the locals rho0, alpha, rnmax_computed, rnmax_true, iter, eps of operator(); out: their new values and zeta; early = the `goto done` exit was taken */
+typedef struct jret { V rho0, alpha, zeta, rnmax_computed, rnmax_true; size_t iter; _Bool early; } jret;
+#define JRET __CPROVER_return_value
+#define BICG_CONTRACT \
+__CPROVER_requires(UF_AXIOMS && ALLOC_BL && g_thrown == 0 && iter_in < self->prm.maxiter) \
+__CPROVER_requires(BL_VEC_KEEP && BL_RES && gs.bas.upto[B_R] >= 1 && gs.bas.upto[B_U] >= 1 && gs.norm.calls == 2 && gs.norm.id0 == 1) \
+__CPROVER_assigns(g_thrown, *self->X, *self->T, gs) \
+__CPROVER_ensures(BL_VEC_KEEP && BL_RES && gs.bas.upto[B_R] >= 1 && gs.bas.upto[B_U] >= 1 && gs.norm.calls == 2 && gs.norm.id0 == 1) \
+/* a full pass: L BiCG steps, every vector of R and U written, the count is left to the caller */ \
+__CPROVER_ensures((!g_thrown && !JRET.early) ==> (gs.bas.upto[B_R] >= LL(self) + 1 && gs.bas.upto[B_U] >= LL(self) + 1 && JRET.iter == iter_in \
+                   && self->X->version == OLDV(self->X->version) + LL(self))) \
+/* early exit after step j: the count advances by j + 1 <= L, the norm of R[0] just evaluated is below the tolerance */ \
+__CPROVER_ensures((!g_thrown && JRET.early) ==> (JRET.iter > iter_in && JRET.iter - iter_in <= LL(self) && UF_LESS(JRET.zeta, eps) \
+                   && self->X->version == OLDV(self->X->version) + (JRET.iter - iter_in))) \
+/* every step: X = alpha * U[0] + 1 * X (the last axpby into a single vector), then the residuals R[0..j] are updated and ||R[0]|| is evaluated */ \
+__CPROVER_ensures(!g_thrown ==> (ZETA_R0(JRET.zeta) && gs.ax.vidy == 4 && gs.ax.vidx == BAS_ID(B_U) && gs.ax.vix == 0 && gs.ax.vb == MATH_identity(V) && gs.ax.va == JRET.alpha))
+
+/* ---- contract of the polynomial part of operator() (from the first loop over MZa to the zero-omega test; ENFORCED by unit solver_bicgstabl_poly) ----
+ * reads R[0..L] (inner products), writes MZa, MZb, Y0, YL and yields omega; a zero omega throws */
+typedef struct pret { V omega; } pret;
+#define POLY_CONTRACT \
+__CPROVER_requires(UF_AXIOMS && ALLOC_BL && g_thrown == 0 && gs.bas.upto[B_R] >= LL(self) + 1) \
+__CPROVER_assigns(g_thrown, gs.sc, gy) \
+__CPROVER_ensures(!g_thrown ==> Y_FULL(SC_Y0))
+"""
+
+BL_T = BL_COMMON + r"""
+jret f_bicg(const bicgstabl *self, const mat *A_p, const precond *P_p, const vec *x_p, V rho0_in, V alpha_in, V eps, V rnmax_computed_in, V rnmax_true_in, size_t iter_in, struct bl_g0 g0)
+BICG_CONTRACT;
+pret f_poly(const bicgstabl *self)
+POLY_CONTRACT;
+
+result f_bicgstabl(const bicgstabl *self, const mat *A_p, const precond *P_p, const vec *rhs_p, vec *x_p)
+__CPROVER_requires(__CPROVER_is_fresh(self, sizeof(*self)) && __CPROVER_is_fresh(A_p, sizeof(mat)) && __CPROVER_is_fresh(P_p, sizeof(precond)))
+__CPROVER_requires(__CPROVER_is_fresh(rhs_p, sizeof(vec)) && __CPROVER_is_fresh(x_p, sizeof(vec)))
+__CPROVER_requires(__CPROVER_is_fresh(self->Rt, sizeof(vec)) && __CPROVER_is_fresh(self->X, sizeof(vec)) && __CPROVER_is_fresh(self->B, sizeof(vec)) && __CPROVER_is_fresh(self->T, sizeof(vec)))
+__CPROVER_requires(UF_AXIOMS && ALLOC_BL && g_thrown == 0)
+__CPROVER_requires(rhs_p->defined && rhs_p->readonly && x_p->defined && !x_p->readonly && rhs_p->id == 1 && x_p->id == 2)
+/* C15: Rt, X, B, T, the bases R and U and the scalar arrays hold whatever an earlier call (diverged, NaN, thrown) left there */
+__CPROVER_requires(WS_ENTRY(self->Rt, 3) && WS_ENTRY(self->X, 4) && WS_ENTRY(self->B, 5) && WS_ENTRY(self->T, 6) && GS_ZERO && gs.ax.vcalls == 0)
+__CPROVER_requires(!gy.first[0] && !gy.first[1] && !gy.mid[0] && !gy.mid[1] && !gy.last[0] && !gy.last[1])
+#ifdef VARIANT_DELTA
+/* the residual-refresh option ("accurate update") is on */
+__CPROVER_requires(DELTA_ON(self))
+#else
+__CPROVER_requires(!DELTA_ON(self))
+#endif
+#ifdef VARIANT_CONVERGED_GUESS
+/* C15: the initial guess already satisfies the tolerance (the test of the code is zeta >= eps) */
+__CPROVER_requires(!EARLY(self) && !UF_LE(EPSV(self), g_norm_in1))
+#endif
+__CPROVER_assigns(*x_p, g_thrown, *self->Rt, *self->X, *self->B, *self->T, gs, gy)
+/* C01: the iteration count exceeds maxiter by at most L - 1 (it advances by L per pass, by j + 1 on the early exit); no pass is started at or beyond maxiter */
+__CPROVER_ensures(RET.iters <= self->prm.maxiter + (LL(self) - 1) && (self->prm.maxiter == 0 ==> RET.iters == 0))
+/* C15: zero right-hand side */
+__CPROVER_ensures(EARLY(self) ==> (!g_thrown && RET.iters == 0 && RET.resid == g_norm_in0 && gs.clear.calls == 1 && gs.clear.id == x_p->id && gs.res.calls == 0))
+/* C01: the number returned is (last norm evaluated) / ||rhs||; no pass made: the norm of the initial (preconditioned) residual B in its final state;
+ * otherwise the norm of the carried residual R[0], taken after the last write to the basis R (R[0] in its final state) */
+__CPROVER_ensures((!EARLY(self) && !g_thrown) ==> (RET.resid == UF_DIV(gs.norm.val, NRHS(self)) && gs.norm.id0 == rhs_p->id && gs.norm.calls == 2))
+__CPROVER_ensures((!EARLY(self) && !g_thrown && RET.iters == 0) ==> (gs.norm.val == g_norm_in1 && gs.norm.id == self->B->id && gs.norm.ver == self->B->version))
+__CPROVER_ensures((!EARLY(self) && !g_thrown && RET.iters > 0) ==> (gs.norm.id == BAS_ID(B_R) && gs.norm.ix == 0 && gs.norm.ver == gs.bas.writes[B_R]))
+/* C01: the carried residual starts as residual(rhs, A, x, .) of the initial guess (left: into T, then B = P T; right: into B) */
+__CPROVER_ensures(!EARLY(self) ==> (gs.res.calls == 1 && gs.res.idf == rhs_p->id && gs.res.idA == A_p->id && gs.res.idx == x_p->id && gs.res.xver == OLD(x_p->version)
+                                    && gs.res.idr == (LEFT(self) ? self->T->id : self->B->id)))
+#ifndef VARIANT_DELTA
+/* x is written exactly once, at the end: x = 1 * X + 1 * x (left) / T = P X, x = 1 * T + 1 * x (right), X the accumulated correction (cleared at the start) */
+__CPROVER_ensures((!EARLY(self) && !g_thrown) ==> (x_p->version == OLD(x_p->version) + 1 && gs.ax.vidy == x_p->id && gs.ax.va == MATH_identity(V) && gs.ax.vb == MATH_identity(V)
+                                    && (LEFT(self) ? gs.ax.vidx == self->X->id : (gs.ax.vidx == self->T->id && gs.pa.in == self->X->id && gs.pa.out == self->T->id && gs.pa.outver == self->T->version))))
+#endif
+/* C01: stopping before the budget is exhausted means the reported residual passed the test (zeta < eps on the early exit, the negation of zeta >= eps otherwise) */
+__CPROVER_ensures((!EARLY(self) && !g_thrown && RET.iters < self->prm.maxiter) ==> (UF_LESS(gs.norm.val, EPSV(self)) || !UF_LE(EPSV(self), gs.norm.val)))
+__CPROVER_ensures((!EARLY(self) && !g_thrown && RET.iters == 0 && self->prm.maxiter > 0) ==> !UF_LE(EPSV(self), g_norm_in1))
+#ifdef VARIANT_CONVERGED_GUESS
+/* zero iterations; X is the cleared vector, never updated, and x = x + X (left) / x = x + P X (right) is the only write of x: unchanged in value for a linear P */
+__CPROVER_ensures(!g_thrown && RET.iters == 0 && x_p->version == OLD(x_p->version) + 1 && self->X->version == OLD(self->X->version) + 1 && gs.lc.calls == 0)
+#endif
+__CPROVER_ensures(x_p->defined && x_p->id == OLD(x_p->id) && !x_p->readonly)
+__CPROVER_ensures(g_thrown ==> !EARLY(self))
+{
+  const bl_params prm = self->prm;
+  hv Rt_h = HV(self->Rt), X_h = HV(self->X), B_h = HV(self->B), T_h = HV(self->T);
+  hv *const Rt = &Rt_h, *const X = &X_h, *const B = &B_h, *const T = &T_h;
+  const hv x = HV(x_p), rhs = HV((vec *)rhs_p);
+  V *const Y0 = &gs.sc.cell, *const YL = &gs.sc.cell;
+  const struct bl_g0 g0 = { x_p->version, self->X->version };
+#define A (*A_p)
+#define P (*P_p)
+/*@CUT:body@*/
+#undef A
+#undef P
+}
+void h_f_bicgstabl(void) { const bicgstabl *self; const mat *A; const precond *P; const vec *rhs; vec *x; f_bicgstabl(self, A, P, rhs, x); }
+"""
+
+BL_MAIN = r"""
+__CPROVER_assigns(iter, rho0, alpha, omega, zeta, rnmax_computed, rnmax_true, g_thrown, *x_p, *self->X, *self->B, *self->T, gs, gy)
+__CPROVER_loop_invariant(iter <= prm.maxiter + ((size_t)L - 1) && g_thrown == 0 && BL_VEC_KEEP && BL_RES && gs.bas.upto[B_R] >= 1 && gs.bas.upto[B_U] >= 1)
+__CPROVER_loop_invariant(gs.norm.calls == 2 && gs.norm.id0 == 1 && gs.clear.calls == 2 && zeta == gs.norm.val)
+__CPROVER_loop_invariant(iter == 0 ? (zeta == g_norm_in1 && gs.norm.id == 5 && gs.norm.ver == self->B->version && gs.lc.calls == 0 && self->X->version == g0.Xv0 + 1)
+                                   : (gs.norm.id == BAS_ID(B_R) && gs.norm.ix == 0 && gs.norm.ver == gs.bas.writes[B_R]))
+#ifndef VARIANT_DELTA
+__CPROVER_loop_invariant(x_p->version == g0.xv0)
+#endif
+#ifdef VARIANT_CONVERGED_GUESS
+__CPROVER_loop_invariant(iter == 0)
+#endif
+"""
+BL_NEG = r"""
+__CPROVER_assigns(i, gs.sc, gy)
+__CPROVER_loop_invariant(1 <= i && i <= L + 1 && Y_FULL(SC_Y0))
+__CPROVER_decreases(L + 1 - i)
+"""
+BICG_CALL = ('{ const jret jr_ = f_bicg(self, A_p, P_p, x_p, rho0, alpha, eps, rnmax_computed, rnmax_true, iter, g0); rho0 = jr_.rho0; alpha = jr_.alpha; zeta = jr_.zeta; '
+             'rnmax_computed = jr_.rnmax_computed; rnmax_true = jr_.rnmax_true; iter = jr_.iter; if (g_thrown) return CXC_THROW_RET; if (jr_.early) goto done; }')
+POLY_CALL = '{ const pret pr_ = f_poly(self); omega = pr_.omega; if (g_thrown) return CXC_THROW_RET; }'
+
+# scalar comparisons of BiCGStab(L): a named scalar on the left, a product of names / numbers on the right
+_BL_LHS = r'(?:zeta0|zeta|kappaA|prm\.delta|norm_rhs)'
+_BL_RHS = r'(?:[A-Za-z_][\w.]*(?:\(\d+\))?|\d+(?:\.\d+)?)(?:\s\*\s(?:[A-Za-z_][\w.]*|\d+(?:\.\d+)?))*'
+def _bl_cmp(m):
+    from cxc.extract import uf_expr
+    a, op, b = m.group('a'), m.group('op'), m.group('b')
+    b = b if _re.fullmatch(r'EPS\(\d+\)', b) else uf_expr(b)
+    return {'<': 'UF_LESS(%s, %s)', '>': 'UF_LESS(%s, %s)', '<=': 'UF_LE(%s, %s)', '>=': 'UF_LE(%s, %s)'}[op] % ((a, b) if op in ('<', '<=') else (b, a))
+BL_CMP = Rule(r'(?<![\w.])(?P<a>%s)\s*(?P<op><=|>=|<|>)\s*(?P<b>%s)' % (_BL_LHS, _BL_RHS), _bl_cmp, '+', why='scalar comparisons -> UF_LESS / UF_LE (right-hand products to UF form)')
+BL_Y_RULES = [
+    Rule(r'\blin_comb\((\w+), &(\w+)\[(\w+)\], &(\w+)\[(\w+)\], ', r'LIN_COMB2(\1, SC_\2, \3, B_\4, \5, ', None, why='lin_comb(n, &c[o], &v[p], ..): arrays named by their ids, offsets kept'),
+    Rule(r'\b(Y0|YL)\[(?!y_)([^\]]+)\]\s*=(?!=)', r'\1[y_wr(SC_\1, \2)] =', None, why='a[i] = .. is a write'),
+    Rule(r'\b(Y0|YL)\[(?!y_)([^\]]+)\]', r'\1[y_rd(SC_\1, \2)]', None, why='a[i] read'),
+]
+BL_TAIL = [
+    Rule(r'\beps<scalar_type>\((\d+)\)', r'EPS(\1)', None, why='amgcl::detail::eps<T>(n) -> uninterpreted constant'),
+    BL_CMP,
+    Rule(r'\bP\.apply\(', 'P_APPLY(P, ', None, why='member call -> C call'),
+    Rule(r'\bstd_make_tuple\(', 'MAKE_RESULT(', None, why='R-tuple'),
+    UFArgs(r'MAKE_RESULT', None, skip=[0]),
+    UFArgs(r'axpby|axpbypcz|spmv|vmul', None),
+]
+# for (...) Y0[i] = e;   (assignment on the line of the for header)
+UF_FOR_ASSIGN = UF(r'^\s*for\s*\([^)]*\)\s*(?:/\*@LOOP\d+@\*/\s*)?\w+\[[^;=]*\]\s=\s(?P<e>[^;]+);', None)
+BL_ASSUME = A_HANDLES + [
+    'A-split: the BiCG loop over j and the polynomial part of operator() are each under ONE contract text (BICG_CONTRACT, POLY_CONTRACT in units/c01_solvers3.py): '
+    'enforced on the repository text by units solver_bicgstabl_bicg / solver_bicgstabl_poly, used in their place by unit solver_bicgstabl',
+    'A-L: prm.L >= 1 (checked by the constructor: precondition(prm.L > 0))',
+    'A-delta: this unit covers prm.delta > 0 false (the default, delta = 0); the residual refresh ("accurate update", delta > 0) is unit solver_bicgstabl_delta',
+]
+BL_NOT_DECIDED = ['that the recursively updated residual R[0] equals f - A (x + X) up to rounding (algebraic identity over the reals)',
+                  'convergence within the budget; rounding bounded by conditioning',
+                  'the values held by MZa, MZb, Y0, YL and written-before-read of MZa, MZb (they are rewritten by two loop nests and std::copy at the start of every polynomial part; '
+                  'subscripts are proved within the allocation)',
+                  'amgcl::detail::QR (used through a contract: reads the L x L block, the right-hand side row, writes the solution entries)']
+
+def bl_body_cut(loops):
+    return Cut('amgcl/solver/bicgstabl.hpp', SIG4,
+               rules=[ReplaceLoopStmt(r'for\(int j = 0;', BICG_CALL, nth=0, why='the BiCG loop is used through its contract (enforced by solver_bicgstabl_bicg)'),
+                      ReplaceRegion(r'for\(int i = 0;', r'backend::lin_comb\(', POLY_CALL, why='the polynomial part is used through its contract (enforced by solver_bicgstabl_poly)')]
+                     + DROP_IO + SIDE_RULES + [PSPMV_RULE] + basis_rules('R|U') + BL_Y_RULES + BL_TAIL,
+               uf=[UF_DECL, UF_ASSIGN_LV3, UF_FOR_ASSIGN], loops=loops)
+
+BL_LOOPS = [Loop(r'for\(; iter', BL_MAIN, prefix=True),
+            Loop(r'for\(int i = 1;', BL_NEG, nth=0, prefix=True, optional=True),
+            Loop(r'for\(int i = 1;', BL_NEG, nth=1, prefix=True, optional=True)]
+bicgstabl = Unit(
+    name='solver_bicgstabl', props=['C01', 'C15', 'C10'],
+    functions=['solver::bicgstabl<Backend>::operator()(A, P, rhs, x)'],
+    desc='BiCGStab(L) solve body (BiCG loop and polynomial part through their contracts): iterations <= maxiter + L - 1 and no pass starts at or beyond maxiter; reported residual = norm '
+         'of B (no pass) / of R[0] taken after the last write to R (its final state) / ||rhs||; carried residual starts as residual(rhs, A, x) (left: preconditioned); x written once, at '
+         'the end, x += X (left) / x += P X (right); early stop implies the test passed; breakdowns throw; Rt, X, B, T, R, U, Y0 never read before written in this call; lin_comb '
+         'ranges within the L+1 vectors / entries; zero rhs exit; converged guess: zero iterations, x += (P) 0; rhs/A never written',
+    cuts={'body': bl_body_cut(BL_LOOPS)},
+    template=BL_T.replace('/*@PROLOGUE@*/', ''), enforce='f_bicgstabl', replace=ORCH_H + ['bh_lin_comb2', 'f_bicg', 'f_poly'], mode='inductive', obj_bits=12, replay='solvers',
+    timeout=600, solver=KISSAT, cover=False,
+    variants=[{}, {'VARIANT_CONVERGED_GUESS': 1, 'CXC_NOCOVER': 1}],
+    assumptions=BL_ASSUME, not_decided=BL_NOT_DECIDED,
+)
+
+BL_J_T = BL_COMMON + r"""
+#undef CXC_THROW_RET
+#define CXC_THROW_RET ((jret){rho0, alpha, zeta, rnmax_computed, rnmax_true, iter, 0})
+jret f_bicg(const bicgstabl *self, const mat *A_p, const precond *P_p, const vec *x_p, V rho0_in, V alpha_in, V eps, V rnmax_computed_in, V rnmax_true_in, size_t iter_in, struct bl_g0 g0)
+__CPROVER_requires(__CPROVER_is_fresh(self, sizeof(*self)) && __CPROVER_is_fresh(A_p, sizeof(mat)) && __CPROVER_is_fresh(P_p, sizeof(precond)) && __CPROVER_is_fresh(x_p, sizeof(vec)))
+__CPROVER_requires(__CPROVER_is_fresh(self->Rt, sizeof(vec)) && __CPROVER_is_fresh(self->X, sizeof(vec)) && __CPROVER_is_fresh(self->B, sizeof(vec)) && __CPROVER_is_fresh(self->T, sizeof(vec)))
+BICG_CONTRACT
+{
+  const bl_params prm = self->prm;
+  hv Rt_h = HV(self->Rt), X_h = HV(self->X), B_h = HV(self->B), T_h = HV(self->T);
+  hv *const Rt = &Rt_h, *const X = &X_h, *const B = &B_h, *const T = &T_h;
+  /* the locals of operator() the statement reads and writes */
+  V rho0 = rho0_in, alpha = alpha_in, zeta = nondet_V(), rnmax_computed = rnmax_computed_in, rnmax_true = rnmax_true_in; size_t iter = iter_in;
+  const unsigned long g_Xv = self->X->version;
+#define A (*A_p)
+#define P (*P_p)
+/*@CUT:consts@*/
+/*@CUT:jhead@*/
+__CPROVER_assigns(j, rho0, alpha, zeta, rnmax_computed, rnmax_true, g_thrown, *self->X, *self->T, gs)
+__CPROVER_loop_invariant(0 <= j && j <= L && iter == iter_in && g_thrown == 0 && BL_VEC_KEEP && BL_RES && gs.norm.calls == 2 && gs.norm.id0 == 1)
+__CPROVER_loop_invariant(gs.bas.upto[B_R] >= (size_t)j + 1 && gs.bas.upto[B_U] >= (size_t)j + 1 && self->X->version == g_Xv + (size_t)j)
+__CPROVER_loop_invariant(j > 0 ==> (ZETA_R0(zeta) && gs.ax.vidy == 4 && gs.ax.vidx == BAS_ID(B_U) && gs.ax.vix == 0 && gs.ax.vb == one && gs.ax.va == alpha))
+__CPROVER_decreases(L - j)
+  {
+/*@CUT:jbody@*/
+  }
+  return (jret){rho0, alpha, zeta, rnmax_computed, rnmax_true, iter, 0};
+done:
+  return (jret){rho0, alpha, zeta, rnmax_computed, rnmax_true, iter, 1};
+#undef A
+#undef P
+}
+void h_f_bicg(void) { const bicgstabl *self; const mat *A; const precond *P; const vec *x; V a, b, c, d, e; size_t it; struct bl_g0 g0; f_bicg(self, A, P, x, a, b, c, d, e, it, g0); }
+"""
+BJ_I1 = r"""
+__CPROVER_assigns(i, gs.bas, gs.ax, gs.dummy)
+__CPROVER_loop_invariant(0 <= i && i <= j + 1 && j < L && gs.bas.upto[B_R] >= (size_t)j + 1 && gs.bas.upto[B_U] >= (size_t)j + 1)
+__CPROVER_decreases(j + 1 - i)
+"""
+BJ_I2 = r"""
+__CPROVER_assigns(i, gs.bas, gs.ax, gs.dummy)
+__CPROVER_loop_invariant(0 <= i && i <= j + 1 && j < L && gs.bas.upto[B_R] >= (size_t)j + 1 && gs.bas.upto[B_U] >= (size_t)j + 2)
+__CPROVER_loop_invariant(gs.ax.vidy == 4 && gs.ax.vidx == BAS_ID(B_U) && gs.ax.vix == 0 && gs.ax.vb == one && gs.ax.va == alpha)
+__CPROVER_decreases(j + 1 - i)
+"""
+BLHPP = 'amgcl/solver/bicgstabl.hpp'
+bicgstabl_j = Unit(
+    name='solver_bicgstabl_bicg', props=['C01', 'C15', 'C10'],
+    functions=['solver::bicgstabl<Backend>::operator()(A, P, rhs, x) -- the statement for(int j = 0; j < L; ++j) {...} (BiCG part)'],
+    desc='BiCGStab(L), the BiCG part of a pass: per step U[0..j] updated, U[j+1] = (P) A U[j], X += alpha U[0], R[0..j] updated, R[j+1] = (P) A R[j], ||R[0]|| evaluated after the '
+         'last write to R; zero rho / sigma throw; early exit only with ||R[0]|| < eps and the count advanced by j + 1 <= L; a full pass leaves R[0..L], U[0..L] written; '
+         'R, U subscripts within the L+1 vectors; nothing but X, T, R, U written',
+    cuts={'consts': Cut(BLHPP, r'static const coef_type one  = ', kind='region', end=r'ios_saver'),
+          'jhead': Cut(BLHPP, r'for\(int j = 0;', kind='region', end=r'\{', nth=0),
+          'jbody': Cut(BLHPP, r'for\(int j = 0;[^{]*(?=\{)', nth=0,
+                       rules=[PSPMV_RULE] + basis_rules('R|U') + BL_TAIL,
+                       uf=[UF_DECL, UF_ASSIGN_LV3],
+                       loops=[Loop(r'for\(int i = 0;', BJ_I1, nth=0, prefix=True), Loop(r'for\(int i = 0;', BJ_I2, nth=1, prefix=True)])},
+    template=BL_J_T, enforce='f_bicg', replace=ORCH_H, mode='inductive', obj_bits=12, timeout=600, solver=KISSAT, cover=False, loop_contracts=True,
+    assumptions=BL_ASSUME, not_decided=BL_NOT_DECIDED,
+)
+
+# ---------------------------------------------------------------------------- make_solver (call level) and the 3-argument solver overloads
+MS_COMMON = r"""
+#include "orch_solvers.h"
+int g_thrown;
+#define RET __CPROVER_return_value
+#define OLD(e) __CPROVER_old(e)
+typedef struct solver_obj { int id; } solver_obj;
+/* the call of the iterative solver S(A, P, rhs, x) as seen from its caller: which objects were passed, what came back */
+struct gs_solve { int idS, idA, idP, idf, idx; unsigned long calls, xver_in; result ret; } gsv;
+#define SYSMAT(P) (~(P)->id)            /* id of P.system_matrix() (a function of the id of P; no arithmetic, no overflow) */
+#define SOLVE_REQ(f, x) ((f)->defined && (x)->defined && !(x)->readonly && (const vec *)(x) != (f))
+#define SOLVE_ENS(S, AID, P, f, x) (OUT_ENS(x) && gsv.calls == OLD(gsv.calls) + 1 && gsv.idS == (S)->id && gsv.idA == (AID) && gsv.idP == (P)->id \
+     && gsv.idf == (f)->id && gsv.idx == (x)->id && gsv.xver_in == OLD((x)->version) && RET.iters == gsv.ret.iters && RET.resid == gsv.ret.resid)
+/* IterativeSolver::operator()(A, P, rhs, x)  (units solver_*) */
+result bk_solve4(const solver_obj *S, const mat *A, const precond *P, const vec *f, vec *x)
+__CPROVER_requires(SOLVE_REQ(f, x))
+__CPROVER_assigns(*x, gsv)
+__CPROVER_ensures(SOLVE_ENS(S, A->id, P, f, x));
+/* IterativeSolver::operator()(P, rhs, x): the system matrix is the one the preconditioner was built for (units solver_*_overload3) */
+#define SOLVE3_CONTRACT(S, P, f, x) \
+__CPROVER_requires(SOLVE_REQ(f, x)) \
+__CPROVER_assigns(*x, gsv) \
+__CPROVER_ensures(SOLVE_ENS(S, SYSMAT(P), P, f, x))
+result bk_solve3(const solver_obj *S, const precond *P, const vec *f, vec *x)
+SOLVE3_CONTRACT(S, P, f, x);
+#define SOLVE_PICK(a, b, c, d, e, NAME, ...) NAME
+#define SOLVE4_M(S, A, P, f, x) bk_solve4(&(S), &(A), &(P), &(f), &(x))
+#define SOLVE3_M(S, P, f, x) bk_solve3(&(S), &(P), &(f), &(x))
+#define SOLVE(...) SOLVE_PICK(__VA_ARGS__, SOLVE4_M, SOLVE3_M)(__VA_ARGS__)
+typedef struct make_solver { precond P; solver_obj S; } make_solver;
+/* make_solver::operator()(rhs, x) */
+#define MS2_CONTRACT(self, f, x) \
+__CPROVER_requires(SOLVE_REQ(f, x)) \
+__CPROVER_assigns(*x, gsv) \
+__CPROVER_ensures(SOLVE_ENS(&(self)->S, SYSMAT(&(self)->P), &(self)->P, f, x))
+"""
+MS_RULES = [Rule(r'\bS\(', 'SOLVE(S, ', None, why='call of the member solver -> C call (contract bk_solve4 / bk_solve3 by argument count)')]
+MS_A = ['A-callee: the iterative solver object honours its contract (units solver_*): reads rhs, reads and writes x, writes nothing else',
+        'A-own: P and S are members of the make_solver object']
+
+MS4_T = MS_COMMON + r"""
+result f_ms4(const make_solver *self, const mat *A_p, const vec *rhs_p, vec *x_p)
+__CPROVER_requires(__CPROVER_is_fresh(self, sizeof(*self)) && __CPROVER_is_fresh(A_p, sizeof(mat)) && __CPROVER_is_fresh(rhs_p, sizeof(vec)) && __CPROVER_is_fresh(x_p, sizeof(vec)))
+__CPROVER_requires(SOLVE_REQ(rhs_p, x_p) && rhs_p->readonly && rhs_p->id == 1 && x_p->id == 2)
+__CPROVER_assigns(*x_p, gsv)
+/* exactly one call S(A, P, rhs, x): the matrix passed in, the member preconditioner, rhs and x as given; the solver's tuple is returned unchanged */
+__CPROVER_ensures(SOLVE_ENS(&self->S, A_p->id, &self->P, rhs_p, x_p))
+{
+#define A (*A_p)
+#define P (self->P)
+#define S (self->S)
+#define rhs (*rhs_p)
+#define x (*x_p)
+/*@CUT:body@*/
+#undef A
+#undef P
+#undef S
+#undef rhs
+#undef x
+}
+void h_f_ms4(void) { const make_solver *self; const mat *A; const vec *rhs; vec *x; f_ms4(self, A, rhs, x); }
+"""
+ms4 = Unit(
+    name='make_solver_call_matrix', props=['C01', 'C15', 'C10'],
+    functions=['make_solver<Precond, IterativeSolver>::operator()(A, rhs, x)'],
+    desc='make_solver::operator()(A, rhs, x): exactly one call S(A, P, rhs, x) with the matrix argument, the member preconditioner, rhs and x as given; '
+         'the (iterations, residual) tuple of the solver is returned unchanged; nothing else is written',
+    cuts={'body': Cut('amgcl/make_solver.hpp', r'std::tuple<size_t, scalar_type> operator\(\)\(\s*const Matrix &A, const Vec1 &rhs, Vec2 &&x\) const\s*(?=\{)', rules=MS_RULES)},
+    template=MS4_T, enforce='f_ms4', replace=['bk_solve4', 'bk_solve3', 'bs_clear'], mode='loopfree', obj_bits=12, timeout=300, assumptions=MS_A,
+)
+
+MS2_T = MS_COMMON + r"""
+result f_ms2(const make_solver *self, const vec *rhs_p, vec *x_p)
+__CPROVER_requires(__CPROVER_is_fresh(self, sizeof(*self)) && __CPROVER_is_fresh(rhs_p, sizeof(vec)) && __CPROVER_is_fresh(x_p, sizeof(vec)))
+__CPROVER_requires(rhs_p->readonly && rhs_p->id == 1 && x_p->id == 2)
+/* exactly one call S(P, rhs, x) (system matrix = the one P was built for); the solver's tuple is returned unchanged */
+MS2_CONTRACT(self, rhs_p, x_p)
+{
+#define P (self->P)
+#define S (self->S)
+#define rhs (*rhs_p)
+#define x (*x_p)
+/*@CUT:body@*/
+#undef P
+#undef S
+#undef rhs
+#undef x
+}
+void h_f_ms2(void) { const make_solver *self; const vec *rhs; vec *x; f_ms2(self, rhs, x); }
+"""
+ms2 = Unit(
+    name='make_solver_call', props=['C01', 'C15', 'C10'],
+    functions=['make_solver<Precond, IterativeSolver>::operator()(rhs, x)'],
+    desc='make_solver::operator()(rhs, x): exactly one call S(P, rhs, x) with the member preconditioner (system matrix = the matrix the preconditioner was built for), '
+         'rhs and x as given; the tuple of the solver is returned unchanged; nothing else is written',
+    cuts={'body': Cut('amgcl/make_solver.hpp', r'std::tuple<size_t, scalar_type> operator\(\)\(const Vec1 &rhs, Vec2 &&x\) const\s*(?=\{)', rules=MS_RULES)},
+    template=MS2_T, enforce='f_ms2', replace=['bk_solve4', 'bk_solve3', 'bs_clear'], mode='loopfree', obj_bits=12, timeout=300, assumptions=MS_A,
+)
+
+MSA_T = MS_COMMON + r"""
+result f_ms2(const make_solver *self, const vec *rhs_p, vec *x_p)
+MS2_CONTRACT(self, rhs_p, x_p);
+void f_msapply(const make_solver *self, const vec *rhs_p, vec *x_p)
+__CPROVER_requires(__CPROVER_is_fresh(self, sizeof(*self)) && __CPROVER_is_fresh(rhs_p, sizeof(vec)) && __CPROVER_is_fresh(x_p, sizeof(vec)))
+/* x is output only: it may hold anything on entry */
+__CPROVER_requires(rhs_p->defined && rhs_p->readonly && !x_p->readonly && rhs_p->id == 1 && x_p->id == 2 && gs.clear.calls == 0 && gsv.calls == 0)
+__CPROVER_assigns(*x_p, gsv, gs.clear)
+/* clear(x), then exactly one solve from that zero initial approximation */
+__CPROVER_ensures(gs.clear.calls == 1 && gs.clear.id == x_p->id && gsv.calls == 1 && gsv.idS == self->S.id && gsv.idP == self->P.id && gsv.idA == SYSMAT(&self->P)
+                  && gsv.idf == rhs_p->id && gsv.idx == x_p->id && gsv.xver_in == OLD(x_p->version) + 1 && x_p->version == OLD(x_p->version) + 2 && x_p->defined)
+{
+#define rhs (*rhs_p)
+#define x (*x_p)
+/*@CUT:body@*/
+#undef rhs
+#undef x
+}
+void h_f_msapply(void) { const make_solver *self; const vec *rhs; vec *x; f_msapply(self, rhs, x); }
+"""
+msapply = Unit(
+    name='make_solver_apply', props=['C01', 'C15', 'C10'],
+    functions=['make_solver<Precond, IterativeSolver>::apply(rhs, x)'],
+    desc='make_solver::apply(rhs, x) (use as a preconditioner): x is output only; clear(x), then exactly one (*this)(rhs, x) from the zero initial approximation',
+    cuts={'body': Cut('amgcl/make_solver.hpp', r'void apply\(const Vec1 &rhs, Vec2 &&x\) const\s*(?=\{)',
+                      rules=[Rule(r'\(\*this\)\(', 'f_ms2(self, &', None, why='call of operator()(rhs, x) of the same object (contract enforced by unit make_solver_call)'),
+                             Rule(r'f_ms2\(self, &rhs, x\)', 'f_ms2(self, &rhs, &x)', None, why='reference arguments -> addresses')])},
+    template=MSA_T, enforce='f_msapply', replace=['bs_clear', 'f_ms2'], mode='loopfree', obj_bits=12, timeout=300, assumptions=MS_A,
+)
+
+# IterativeSolver::operator()(P, rhs, x)  ==  (*this)(P.system_matrix(), P, rhs, x)   (same text in every solver header)
+OV3_T = MS_COMMON + r"""
+result f_ov3(const solver_obj *self, const precond *P_p, const vec *rhs_p, vec *x_p)
+__CPROVER_requires(__CPROVER_is_fresh(self, sizeof(*self)) && __CPROVER_is_fresh(P_p, sizeof(precond)) && __CPROVER_is_fresh(rhs_p, sizeof(vec)) && __CPROVER_is_fresh(x_p, sizeof(vec)))
+__CPROVER_requires(rhs_p->readonly && rhs_p->id == 1 && x_p->id == 2)
+SOLVE3_CONTRACT(self, P_p, rhs_p, x_p)
+{
+  mat sysmat; sysmat.id = SYSMAT(P_p);     /* P.system_matrix() */
+#define P (*P_p)
+#define rhs (*rhs_p)
+#define x (*x_p)
+/*@CUT:body@*/
+#undef P
+#undef rhs
+#undef x
+}
+void h_f_ov3(void) { const solver_obj *self; const precond *P; const vec *rhs; vec *x; f_ov3(self, P, rhs, x); }
+"""
+SIG3G = r'std::tuple<size_t, scalar_type> operator\(\)\(\s*Precond const &P,\s*Vec1    const &rhs,\s*Vec2          &x\s*\) const\s*(?=\{)'
+SIG3 = r'std::tuple<size_t, scalar_type> operator\(\)\(\s*const Precond &P, const Vec1 &rhs, Vec2 &&x\) const\s*(?=\{)'
+def overload3(name, src, sig):
+    return Unit(
+        name='solver_%s_overload3' % name, props=['C01', 'C15', 'C10'],
+        functions=['solver::%s<Backend>::operator()(P, rhs, x)' % name],
+        desc='%s::operator()(P, rhs, x): exactly one call (*this)(P.system_matrix(), P, rhs, x); its tuple is returned unchanged' % name,
+        cuts={'body': Cut(src, sig,
+                          rules=[Rule(r'\(\*this\)\(', 'SOLVE(*self, ', None, why='call of the 4-argument overload of the same object'),
+                                 Rule(r'\bP\.system_matrix\(\)', 'sysmat', None, why='accessor -> the matrix the preconditioner was built for')])},
+        template=OV3_T, enforce='f_ov3', replace=['bk_solve4', 'bk_solve3', 'bs_clear'], mode='loopfree', obj_bits=12, timeout=300, assumptions=MS_A[:1],
+    )
+ov3_units = [overload3('fgmres', 'amgcl/solver/fgmres.hpp', SIG3G), overload3('lgmres', 'amgcl/solver/lgmres.hpp', SIG3G),
+             overload3('idrs', 'amgcl/solver/idrs.hpp', SIG3G), overload3('bicgstabl', 'amgcl/solver/bicgstabl.hpp', SIG3)]
+
+UNITS = [fgmres, lgmres, idrs, idrs_k, bicgstabl, bicgstabl_j, ms4, ms2, msapply] + ov3_units
